@@ -199,6 +199,17 @@ SPECIAL_STRINGS = [
 ]
 
 
+# long inputs: beyond every length bound, more than 4 * max + 4 bytes, mixed character widths with no char boundary at
+# byte 48, combining sequences (always part of the string inputs, also when a sample of the inputs is taken)
+LONG_STRINGS = [
+    [0x62] * 30,
+    [0x1F600] * 8,
+    [0x44, 0x72, 0x2E, 0x20] + [0x65E5, 0x672C, 0x8A9E] * 20,
+    [0x61] + [0x6F, 0x308] * 40,
+    [0x61] + [0x20] * 40 + [0x62],
+]
+
+
 def instantiate_plain(ad, did):
     d = copy.deepcopy(ad)
     d["id"] = did
@@ -238,6 +249,8 @@ def string_inputs(d, rng, nrandom):
     for sp in SPECIAL_STRINGS:
         vals.add(tuple(sp))
         vals.add(tuple([0x20] + sp + [0x3000]))
+    for sp in LONG_STRINGS:
+        vals.add(tuple(sp))
     pool = SIGMA + WHITE_SPACE + [0x3A3, 0x130, 0xDF, 0xFB01, 0x1F600, 0x42, 0x7A, 0x5A, 0x39]
     for _ in range(nrandom):
         n = rng.randint(0, 6)
@@ -362,7 +375,7 @@ class Projector:
 
 
 VIEW_VALUE_FIELDS = ("into_inner", "as_ref", "deref", "borrow", "borrow2", "into", "clone", "iter", "iter_ref")
-CANON_EPS = ("canon", "canon_tf", "canon_disp", "canon_serde", "canon_fmt", "canon_via_from_str", "canon_via_try_from", "canon_via_from", "canon_via_deser", "canon_via_deser_seq", "canon_via_deser_ronv")
+CANON_EPS = ("canon", "canon_tf", "canon_disp", "canon_serde", "canon_fmt", "canon_via_from_str", "canon_via_try_from", "canon_via_from", "canon_via_deser", "canon_via_deser_seq", "canon_via_deser_ronv", "canon_via_deser_mp")
 
 
 def item_values(d, ep, inp, out, x):
@@ -499,6 +512,8 @@ def model_item(d, proj, ep, inp, out, x):
             return {"ok": True, "v": [list(inp)]}, {"k": "hang", "v": [], "e": ""}, None
         return {"ok": True, "v": [list(inp)]}, model_out(d, proj, out), None
     if ep == "arb_cover":
+        if k == "hang":      # the generator did not return on some input: reported as a cover that produced nothing and failed
+            return {"ok": True, "v": []}, {"runs": [], "panics": 1000000, "errs": 0, "oks": 0}, None
         return ({"ok": True, "v": []},
                 {"runs": [[proj.model(int(a)), proj.model(int(b))] for a, b in out["runs"]],
                  "panics": min(int(out["panics"]), 1000000), "errs": min(int(out["errs"]), 1000000), "oks": min(int(out["oks"]), 1000000)}, None)
